@@ -46,3 +46,14 @@ Definition import_model (isw : N -> bool) (cfg : icfg) (lines : list str) : resu
   end.
 
 Definition printed (tq : str) (fs : list feature) : list str := map (feature_str tq) fs.
+
+(* ---- the same annotation handed over as ready-made Feature objects (C13) ---- *)
+Definition voter_of_feature (f : feature) : voter := mkVoter (map fst (f_attrs f)) (f_dialect f).
+
+(* DataIterator over ready-made Feature objects (a list, or a one-shot iterator whose peeked items are chained back): the
+   dialect is the supplied one, or the vote over the first checklines + 1 objects' own dialects; every object is yielded
+   once, in order, carrying that dialect (and, out of a database, its switches) *)
+Definition objects_model (cfg : icfg) (fs : list feature) : dialect * list feature :=
+  let D := data_iterator_dialect (c_supplied cfg) (c_checklines cfg) (map voter_of_feature fs) in
+  (D, map (stored_feature cfg D) fs).
+
